@@ -165,3 +165,28 @@ pub fn family(kind: usize, n: usize) -> String {
         _ => unreachable!(),
     }
 }
+
+/// the repository's own script files (tests/scripts/**/*.garnish): realistic multi-line layouts.
+/// Read from /repo's working tree at run time; absent directory = empty corpus.
+pub fn repo_scripts() -> Vec<(String, String)> {
+    fn walk(dir: &std::path::Path, out: &mut Vec<(String, String)>) {
+        let mut entries: Vec<_> = match std::fs::read_dir(dir) {
+            Ok(e) => e.filter_map(|x| x.ok()).map(|x| x.path()).collect(),
+            Err(_) => return,
+        };
+        entries.sort();
+        for p in entries {
+            if p.is_dir() {
+                walk(&p, out);
+            } else if p.extension().map(|e| e == "garnish").unwrap_or(false) {
+                if let Ok(text) = std::fs::read_to_string(&p) {
+                    out.push((p.display().to_string(), text));
+                }
+            }
+        }
+    }
+    let root = std::env::var("GMON_REPO").unwrap_or_else(|_| "/repo".to_string());
+    let mut out = vec![];
+    walk(&std::path::Path::new(&root).join("tests/scripts"), &mut out);
+    out
+}
